@@ -176,6 +176,12 @@ func (db *SingleBucketBackend) getBucketWithFilePrefixLocked(bucket string, pref
 		}
 	}
 
+	// The entries come sorted by name, but a directory stands for name + "/":
+	// "a-b/" sorts before "a/" although "a" sorts before "a-b".
+	sort.Slice(response.CommonPrefixes, func(i, j int) bool {
+		return response.CommonPrefixes[i].Prefix < response.CommonPrefixes[j].Prefix
+	})
+
 	return response, nil
 }
 
